@@ -1,6 +1,6 @@
 (** C11 — route flooding terminates and never loops. *)
 From Coq Require Import List NArith.
-From MM Require Import Model.Flood Proofs.FloodBase Proofs.FloodOnce Proofs.FloodPaths.
+From MM Require Import Model.Flood Proofs.FloodBase Proofs.FloodOnce Proofs.FloodPaths Generated.C11.
 Import ListNotations.
 Local Open Scope N_scope.
 
@@ -93,3 +93,24 @@ Proof.
   - vm_compute. reflexivity.
   - vm_compute. auto.
 Qed.
+
+Section SourceFacts.
+Import String.
+Local Open Scope string_scope.
+(** The facts regenerated from flood.go on this run are the ones the model is
+    built on: the seen cache is keyed by exactly (origin, sequence); the
+    handler looks the key up, marks it, then checks seen-by, stores and floods
+    in that order; the forwarded copy carries seen-by + local id; floodFrame
+    skips the sender and every agent in seen-by; entries expire when strictly
+    older than the TTL (300 s), checked on a ticker of period TTL/2. *)
+Theorem C11_source_facts :
+  gen_seen_key_fields = ["OriginAgent"; "Sequence"] /\
+  gen_seen_key_origin_arg = "originAgent" /\ gen_seen_key_sequence_arg = "sequence" /\
+  gen_handle_order_lookup_mark_loopcheck_store_flood = true /\
+  gen_forward_appends_self_to_seenby = true /\
+  gen_floodframe_skips_sender_and_seenby = true /\ gen_flood_passes_sender_and_seenby = true /\
+  gen_seen_ttl_seconds = seen_ttl /\ seen_ttl / gen_cleanup_ticks_per_ttl = cleanup_period /\
+  gen_expiry_is_strictly_older_than_ttl = true.
+Proof. repeat split; reflexivity. Qed.
+End SourceFacts.
+Print Assumptions C11_source_facts.
